@@ -547,6 +547,48 @@ Fixpoint resolve_pending (fuel : nat) (W : world) (o : bopts) (st : bstate) : op
        | S f => resolve_pending f W o (loop_step W o st)
        end.
 
+(* ---------- termination measure ----------
+   Proofs/Termination.v proves that every iteration of the loop strictly decreases [tmeasure U st]
+   (U: the specifiers the world and the state can mention), so [term_fuel] iterations always suffice. *)
+Definition res_targets (r : res) : list spec := match r with ROk t _ => [t] | _ => [] end.
+Definition dep_targets (d : dep) : list spec := res_targets (d_code d) ++ res_targets (d_type d).
+Definition wmod_targets (wm : wmod) : list spec :=
+  flat_map (fun da => dep_targets (fst da)) (wm_deps wm) ++
+  match wm_tdep wm with Some td => res_targets (td_res td) | None => [] end.
+Definition wresp_targets (r : wresp) : list spec :=
+  match r with
+  | WRedirect to => [to]
+  | WExternal f => [f]
+  | WModule f wm => f :: wmod_targets wm
+  | _ => []
+  end.
+Definition world_specs (W : world) : list spec :=
+  flat_map (fun p => wresp_targets (snd p)) (w_resp W ++ w_resp_reload W).
+Definition state_specs (st : bstate) : list spec :=
+  map pi_spec (st_pending st) ++ map fst (st_dyn st) ++ map fst (st_deferred st) ++ map snd (st_redirects st).
+Definition universe (W : world) (st : bstate) : list spec := dedup (world_specs W ++ state_specs st).
+
+(* what one specifier can still cost: 6 while nothing is known about it (it can be queued), 2 while it is
+   an asset-only entry or an asset load in flight that nobody waits for (it can be queued once more, as a
+   module), 0 otherwise *)
+Definition credit (slots : list (spec * bslot)) (reds : list (spec * spec)) (defs : list (spec * deferred))
+           (u : spec) : nat :=
+  match lookup u slots with
+  | None => if has_key u reds then 0 else 6
+  | Some (BExternal true) => 2
+  | Some (BPending true) => if has_key u defs then 0 else 2
+  | Some _ => 0
+  end%nat.
+Definition item_weight (it : pitem) : nat := if pi_asset it then 3%nat else 1%nat.
+Definition dyn_credit (U : list spec) (in_dyn : bool) (dyn : list (spec * branch)) : nat :=
+  if in_dyn then O else S (length (filter (fun u => negb (has_key u dyn)) U)).
+Fixpoint sum_nat (l : list nat) : nat := match l with [] => O | x :: r => (x + sum_nat r)%nat end.
+Definition tmeasure (U : list spec) (st : bstate) : nat :=
+  (sum_nat (map (credit (st_slots st) (st_redirects st) (st_deferred st)) U)
+   + sum_nat (map item_weight (st_pending st))
+   + length (st_deferred st) + dyn_credit U (st_in_dyn st) (st_dyn st))%nat.
+Definition term_fuel (W : world) (st : bstate) : nat := tmeasure (universe W st) st.
+
 (* ---------- build ---------- *)
 Record bgraph := {
   bg_kind : gkind;
